@@ -47,7 +47,7 @@ def bounded_part_view(ctx):
                 ok = len(c.args) == 1 and bounded(rd, c.args[0])
                 ctx.ob(rd, c, ok, 'the inner read is not bounded by the remaining size of this chunk: the part would also send bytes of the next part')
         adv = [x for x in own_nodes(rd.node) if isinstance(x, ast.AugAssign) and dotted(x.target) == 'self._amount_read' and isinstance(x.op, ast.Add)]
-        ok = len(adv) == 1 and norm(adv[0].value).startswith('len(') and not q.guards(adv[0])
+        ok = len(adv) == 1 and norm(q.resolve_local(rd, adv[0].value)).startswith('len(') and not q.guards(adv[0])
         ctx.ob(rd, 'self._amount_read += len(data)', ok, 'the position inside the chunk must advance by exactly what was read')
         rets = [x for x in own_nodes(rd.node) if isinstance(x, ast.Return)]
         ok = len(rets) == 1 and isinstance(rets[0].value, ast.Name) and any(isinstance(v, ast.Call) and (dotted(v.func) or '') == 'self._fileobj.read' for _, v in q.local_defs(rd, rets[0].value.id))
@@ -328,7 +328,8 @@ def stream_is_read_to_eof_from_its_position(ctx):
         and g.must_pass(g.nodes_of(end_seek[0]), g.nodes_of(restore[0]), [g.exit], g.NORMAL)
     ctx.ob(s_, 'size discovery: start = tell(); seek(0, 2); end = tell(); seek(start)', ok, 'the stream must be back at its call-time position before any body is read')
     sz = [c for c in own_calls(s_.node) if (dotted(c.func) or '').endswith('provide_transfer_size')]
-    ok = len(sz) == 1 and isinstance(sz[0].args[0], ast.BinOp) and isinstance(sz[0].args[0].op, ast.Sub) and norm(sz[0].args[0].right) == start
+    sz0 = q.resolve_local(s_, sz[0].args[0]) if len(sz) == 1 and sz[0].args else None
+    ok = len(sz) == 1 and isinstance(sz0, ast.BinOp) and isinstance(sz0.op, ast.Sub) and norm(sz0.right) == start
     ctx.ob(s_, 'size = end position - start position', ok, 'the upload covers the bytes from the call-time position to EOF')
     b = ctx.func('upload.UploadSeekableInputManager._get_put_object_fileobj_with_full_size')
     rets = [x for x in own_nodes(b.node) if isinstance(x, ast.Return) and isinstance(x.value, ast.Tuple) and len(x.value.elts) == 2]
